@@ -62,3 +62,29 @@ TW('C01', 'twin-newton-rename-locals', DS, "    mat_m_i = (1 - alpha) * identity
    "    step_matrix = alpha * mat_m + identity * (1 - alpha)\n    new_mat_m = jnp.matmul(mat_power(step_matrix, p), mat_m, precision=precision)\n    new_mat_h = jnp.matmul(mat_h, step_matrix, precision=precision)")
 TW('C01', 'twin-total-retries-hoisted', DS, "  max_error_ratio = 1.2\n", "  max_error_ratio = 1.2\n  total_retries = 0\n")
 TW('C01', 'twin-cond-reorder', DS, "    return jnp.logical_and(i < num_iters, error_above_threshold)", "    return jnp.logical_and(error_above_threshold, num_iters > i)")
+
+# ------------------------------------------------------------------ C03
+_SKIP = "      condition = jnp.logical_or(\n          jnp.isnan(error), error >= inverse_failure_threshold)\n      return condition.astype(error.dtype)\n\n    def _select_preconditioner(error, new_p, old_p):\n      return lax.cond(\n          _skip(error), lambda _: old_p, lambda _: new_p, operand=None)\n\n    new_preconditioners_flat = []\n    new_errors_flat = metrics_flat.inverse_pth_root_errors\n    for p, shape, prev_p, error in zip(preconditioners_flat, original_shapes,\n                                       prev_preconditioners, new_errors_flat):\n      new_preconditioners_flat.append(\n          _select_preconditioner(error, p[:shape[0], :shape[1]], prev_p))"
+M('C03', 'pmap-gate-strict', DS, _SKIP, _SKIP.replace("error >= inverse_failure_threshold", "error > inverse_failure_threshold"))
+M('C03', 'pmap-gate-no-isnan', DS, _SKIP, _SKIP.replace("jnp.logical_or(\n          jnp.isnan(error), error >= inverse_failure_threshold)", "(error >= inverse_failure_threshold)"))
+M('C03', 'pmap-gate-swapped-arms', DS, _SKIP, _SKIP.replace("_skip(error), lambda _: old_p, lambda _: new_p, operand=None", "_skip(error), lambda _: new_p, lambda _: old_p, operand=None"))
+M('C03', 'pmap-gate-literal-threshold', DS, _SKIP, _SKIP.replace("error >= inverse_failure_threshold", "error >= 0.1"))
+M('C03', 'pmap-sentinel-zero', DS, "          default_training_metrics(\n              generate_fd_metrics\n          ).replace(inverse_pth_root_errors=inverse_failure_threshold))\n      init_state = [preconditioners_init, metrics_init]",
+  "          default_training_metrics(\n              generate_fd_metrics\n          ).replace(inverse_pth_root_errors=0.0))\n      init_state = [preconditioners_init, metrics_init]")
+M('C03', 'pmap-sentinel-dropped', DS, "          default_training_metrics(\n              generate_fd_metrics\n          ).replace(inverse_pth_root_errors=inverse_failure_threshold))\n      init_state = [preconditioners_init, metrics_init]",
+  "          default_training_metrics(\n              generate_fd_metrics\n          ))\n      init_state = [preconditioners_init, metrics_init]")
+M('C03', 'quantized-bucket-ungated', DS, "          _select_preconditioner(error, b[:shape[0]], prev_p.bucket_size))", "          b[:shape[0]])")
+M('C03', 'quantized-diag-other-error', DS, "          _select_preconditioner(error, d[:shape[0]], prev_p.diagonal))", "          _select_preconditioner(error * 0.5, d[:shape[0]], prev_p.diagonal))")
+M('C03', 'quantized-sentinel-halved', DS, "          ).replace(inverse_pth_root_errors=inverse_failure_threshold))\n      init_state = [\n          quantized_preconditioners_init,", "          ).replace(inverse_pth_root_errors=inverse_failure_threshold * 0.5))\n      init_state = [\n          quantized_preconditioners_init,")
+M('C03', 'F3-sharded-blend', DS, "    predicate = jnp.logical_or(\n        jnp.isnan(errors), errors >= inverse_failure_threshold)\n    # TODO(rohananil): Check for numerical instabilities.\n    new_conditional_preconditioners = jnp.where(\n        predicate, global_stats.preconditioners, new_preconditioners)",
+  "    predicate = jnp.logical_or(\n        jnp.isnan(errors), errors >= inverse_failure_threshold).astype(new_preconditioners.dtype)\n    # TODO(rohananil): Check for numerical instabilities.\n    new_conditional_preconditioners = (\n        predicate * global_stats.preconditioners +\n        (1.0 - predicate) * new_preconditioners)")
+M('C03', 'sharded-sentinel-ones-only', DS, "      new_errors = jnp.ones_like(metrics_init.inverse_pth_root_errors) * (\n          inverse_failure_threshold)", "      new_errors = jnp.ones_like(metrics_init.inverse_pth_root_errors) * (\n          inverse_failure_threshold) * 0.99")
+M('C03', 'sharded-gate-strict', DS, "        jnp.isnan(errors), errors >= inverse_failure_threshold)\n    # TODO(rohananil)", "        jnp.isnan(errors), errors > inverse_failure_threshold)\n    # TODO(rohananil)")
+M('C03', 'sharded-ungated', DS, "    new_global_stats = GlobalShardedParameterStats(\n        new_stacked_padded_statistics, new_conditional_preconditioners,", "    new_global_stats = GlobalShardedParameterStats(\n        new_stacked_padded_statistics, new_preconditioners,")
+M(['C03', 'C04'], 'efficient-cond-runs-when-false', DS, "    return tuple([False] + list(results))\n\n  def _iter_condition(state):\n    return state[0]", "    return tuple([False] + list(results))\n\n  def _iter_condition(state):\n    return jnp.logical_not(state[0])")
+M('C03', 'graft-denominator-unguarded', DS, "      multiplier = (grafting_update_norm / (precond_grad_norm + _EPSILON))", "      multiplier = (grafting_update_norm / precond_grad_norm)")
+M('C03', 'adagrad-denominator-unguarded', DS, "      adagrad_update = scaled_grad / (\n          jnp.sqrt(new_diagonal_statistics) + diagonal_epsilon)", "      adagrad_update = scaled_grad / (\n          jnp.sqrt(new_diagonal_statistics))")
+TW('C03', 'twin-gate-where-and-flipped-cmp', DS, "      return lax.cond(\n          _skip(error), lambda _: old_p, lambda _: new_p, operand=None)\n\n    new_preconditioners_flat = []",
+   "      return jnp.where(_skip(error), old_p, new_p)\n\n    new_preconditioners_flat = []", count=2)
+TW('C03', 'twin-sharded-flipped-cmp', DS, "        jnp.isnan(errors), errors >= inverse_failure_threshold)\n    # TODO(rohananil)", "        jnp.isnan(errors), inverse_failure_threshold <= errors)\n    # TODO(rohananil)")
+TW('C03', 'twin-sharded-select', DS, "    new_conditional_preconditioners = jnp.where(\n        predicate, global_stats.preconditioners, new_preconditioners)", "    old_preconditioners = global_stats.preconditioners\n    new_conditional_preconditioners = lax.select(\n        predicate, old_preconditioners, new_preconditioners)")
